@@ -10,7 +10,7 @@
    The SectionItems object under construction is an operation record (sect_ops), read here as
    (mnemonic_transforms, items) with SectionParse.sect_append (C13_append_current pins SectionItems.append itself).
    None: LASHeaderError (PErr).  Restated as C19_parse_section_current / C09_parse_section_current. *)
-From Coq Require Import List Arith NArith ZArith Bool Lia ZifyBool ZifyN ZifyNat String.
+From Coq Require Import List Arith NArith ZArith Bool Lia ZifyBool ZifyN ZifyNat String Sorted.
 Import ListNotations.
 Require Import PyStr Regex Regexes NumLit Tables Funcs Num HeaderLine SectionParse Sections
   FuncsPinsLib FuncsPinStandardize FuncsPinWriter FuncsPinNum FuncsPinParser FuncsPinParserInit FuncsPinHeaderLine
@@ -197,3 +197,100 @@ Proof.
   rewrite in_list_chars, Hcc. unfold ch_tilde. cbn [startswith N.eqb Pos.eqb andb]. rewrite Hinl. reflexivity.
 Qed.
 End Pin.
+
+(* ---------- every section find_sections produces satisfies section_extent --------------------------------
+   (with "#" as the only comment character, as LASFile.read calls parse_header_items_section) *)
+Definition title_at (ls : list (list N)) (j : nat) : Prop :=
+  exists l, nth_error ls j = Some l /\ startswith [ch_tilde] (strip l) = true.
+
+Lemma find_starts_spec : forall ls i,
+  Forall (fun jt : nat * list N => (i <= fst jt < i + List.length ls)%nat /\
+                                    exists l, nth_error ls (fst jt - i) = Some l /\ startswith [ch_tilde] (strip l) = true /\ snd jt = strip l)
+         (find_starts ls i)
+  /\ StronglySorted lt (List.map fst (find_starts ls i)).
+Proof.
+  induction ls as [|l ls IH]; intros i; [split; constructor|].
+  destruct (IH (S i)) as (Hall & Hsort). cbn [find_starts].
+  assert (Hshift : Forall (fun jt : nat * list N => (i <= fst jt < i + List.length (l :: ls))%nat /\
+                       exists l0, nth_error (l :: ls) (fst jt - i) = Some l0 /\ startswith [ch_tilde] (strip l0) = true /\ snd jt = strip l0)
+                     (find_starts ls (S i))).
+  { eapply Forall_impl; [|exact Hall]. intros (j, t) ((H1 & H2) & l0 & Hn & Hs). cbn [fst List.length] in *. split; [lia|].
+    exists l0. split; [|exact Hs]. replace (j - i)%nat with (S (j - S i)) by lia. exact Hn. }
+  destruct (startswith [ch_tilde] (strip l)) eqn:E.
+  - split.
+    + constructor; [|exact Hshift]. cbn [fst List.length]. split; [lia|]. exists l. rewrite Nat.sub_diag. split; [reflexivity|split; [exact E|reflexivity]].
+    + cbn [List.map fst]. constructor; [exact Hsort|].
+      rewrite Forall_map. eapply Forall_impl; [|exact Hall]. intros (j, t) ((H1 & _) & _). cbn [fst] in *. lia.
+  - split; assumption.
+Qed.
+
+Lemma nth_error_skipn_cons {A} : forall k (ls : list A) l, nth_error ls k = Some l -> exists r, skipn k ls = l :: r.
+Proof.
+  induction k as [|k IH]; intros [|x ls] l H; cbn in H; try discriminate H.
+  - injection H as ->. exists ls. reflexivity.
+  - exact (IH ls l H).
+Qed.
+
+Lemma with_ends_extent : forall ls starts,
+  Forall (fun jt : nat * list N => (fst jt < List.length ls)%nat /\ title_at ls (fst jt)) starts ->
+  StronglySorted lt (List.map fst starts) ->
+  forall p, In p (with_ends starts (List.length ls)) -> section_extent ls (sp_first p) (sp_last p) [ch_hash].
+Proof.
+  intros ls. induction starts as [|(i, t) starts IH]; intros Hall Hsort p Hin; [destruct Hin|].
+  destruct starts as [|(j, t2) rest].
+  - cbn [with_ends] in Hin. destruct Hin as [<-|[]]. cbn [sp_first sp_last]. left.
+    apply Forall_inv in Hall. cbn [fst] in Hall. lia.
+  - change (with_ends ((i, t) :: (j, t2) :: rest) (List.length ls))
+      with (mkspos i (j - 1) t :: with_ends ((j, t2) :: rest) (List.length ls)) in Hin.
+    destruct Hin as [<-|Hin].
+    + cbn [sp_first sp_last].
+      assert (Hij : (i < j)%nat).
+      { apply StronglySorted_inv in Hsort as (_ & Hlt). cbn [List.map fst] in Hlt. apply Forall_inv in Hlt. exact Hlt. }
+      destruct (Nat.eq_dec j (S i)) as [->|Hne]; [|left; lia].
+      right. split; [lia|].
+      apply Forall_inv_tail in Hall. apply Forall_inv in Hall. cbn [fst] in Hall. destruct Hall as (_ & l & Hn & Hs).
+      destruct (nth_error_skipn_cons _ _ _ Hn) as (r & ->). split; [exact Hs|reflexivity].
+    + apply IH; [exact (Forall_inv_tail Hall)|apply StronglySorted_inv in Hsort; tauto|exact Hin].
+Qed.
+
+Theorem find_sections_extent : forall ls p,
+  In p (find_sections ls) -> section_extent ls (sp_first p) (sp_last p) [ch_hash].
+Proof.
+  intros ls p Hin. unfold find_sections in Hin. destruct (find_starts_spec ls 0) as (Hall & Hsort).
+  apply (with_ends_extent ls (find_starts ls 0)); [|exact Hsort|exact Hin].
+  eapply Forall_impl; [|exact Hall]. intros (j, t) ((_ & H2) & l & Hn & Hs & _). cbn [fst] in *. split; [lia|].
+  exists l. rewrite Nat.sub_0_r in Hn. split; assumption.
+Qed.
+
+Lemma with_ends_starts : forall starts n p, In p (with_ends starts n) -> In (sp_first p, sp_title p) starts.
+Proof.
+  induction starts as [|(i, t) starts IH]; intros n p Hin; [destruct Hin|].
+  destruct starts as [|(j, t2) rest].
+  - cbn [with_ends] in Hin. destruct Hin as [<-|[]]. left. reflexivity.
+  - change (with_ends ((i, t) :: (j, t2) :: rest) n) with (mkspos i (j - 1) t :: with_ends ((j, t2) :: rest) n) in Hin.
+    destruct Hin as [<-|Hin]; [left; reflexivity|right; exact (IH n p Hin)].
+Qed.
+
+(* the pin as LASFile.read uses the function: on a section that find_sections found, with "#" as comment character *)
+Theorem parse_section_found_pin : forall fstr fzero (ls : list (list N)) (p : spos) (v : las_version) (c : mcase) (ign : bool),
+  In p (find_sections ls) -> v <> V30 ->
+  py_parse_header_items_section (hval_ops fstr fzero) num_hval_ops hsect_ops (skipn (sp_first p) ls)
+    (Z.of_nat (sp_first p), Z.of_nat (sp_last p)) v ign (case_str c) [[ch_hash]]
+  = match parse_section v (sp_title p) c ign [ch_hash] (body_lines ls p) with
+    | POk items => Some (case_transforms c, items)
+    | PErr _ => None
+    end.
+Proof.
+  intros fstr fzero ls p v c ign Hin Hv.
+  pose proof (find_sections_extent ls p Hin) as Hext.
+  unfold find_sections in Hin. apply with_ends_starts in Hin.
+  destruct (find_starts_spec ls 0) as (Hall & _). rewrite Forall_forall in Hall.
+  destruct (Hall _ Hin) as (_ & l & Hn & Hs & Ht). cbn [fst snd] in Hn, Ht. rewrite Nat.sub_0_r in Hn.
+  destruct (nth_error_skipn_cons _ _ _ Hn) as (r & Hsk).
+  assert (Hline : pyo_readline_line (skipn (sp_first p) ls) = l) by (rewrite Hsk; reflexivity).
+  pose proof (parse_section_pin fstr fzero ls (sp_first p) (sp_last p) (sp_title p) v c ign [ch_hash]) as H.
+  rewrite Hline in H. specialize (H Hs Hv Hext).
+  change (List.map (fun ch : N => [ch]) [ch_hash]) with [[ch_hash]] in H. rewrite H.
+  destruct p as [a b t]. cbn [sp_first sp_last sp_title] in *. subst t.
+  unfold parse_section. rewrite strip_idem. reflexivity.
+Qed.
